@@ -111,7 +111,7 @@ ListIdx == /\ Len(stack) >= 2 /\ Top(1).k \in {"li", "lb"} /\ Top(1).n.T = "Name
            /\ Repl(2, E(Sub(Top(1).n, Top(0).n), IF Top(1).k = "li" THEN "i" ELSE "b", TRUE))
 ConstListIdx == /\ Len(stack) >= 1 /\ Top(0).k = "i" /\ Top(0).n.T = "Name" /\ Top(0).hv
                 /\ \E L \in {<<1, 2, 3, 2>>, <<0, 3, 1, 1>>} :
-                     Repl(1, E(Sub([T |-> "List", elts |-> [j \in 1..Len(L) |-> CI(L[j])]], Top(0).n), "i", TRUE))
+                     Repl(1, E(Sub([T |-> "Tuple", elts |-> [j \in 1..Len(L) |-> CI(L[j])]], Top(0).n), "i", TRUE))
 TupSel == /\ Len(stack) >= 1 /\ Top(0).k = "t" /\ Top(0).n.T = "Name"
           /\ \/ Repl(1, E(Sub(Top(0).n, CI(0)), "i", TRUE))
              \/ Repl(1, E(Sub(Top(0).n, CI(1)), "b", TRUE))
